@@ -1965,15 +1965,25 @@ namespace xsimd
                 using int_batch = typename bitwise_cast_batch<T, A>::type;
                 using int_type = typename int_batch::value_type;
 
+                // The integer representation grows with the magnitude: stepping towards +inf increments it for
+                // positive values and decrements it for negative ones; both zeros step to the smallest subnormal.
                 static XSIMD_INLINE batch_type next(const batch_type& b) noexcept
                 {
-                    batch_type n = ::xsimd::bitwise_cast<T>(::xsimd::bitwise_cast<int_type>(b) + int_type(1));
+                    const int_batch ib = ::xsimd::bitwise_cast<int_type>(b);
+                    const batch_type up = ::xsimd::bitwise_cast<T>(ib + int_type(1));
+                    const batch_type down = ::xsimd::bitwise_cast<T>(ib - int_type(1));
+                    const batch_type tiny = ::xsimd::bitwise_cast<T>(int_batch(int_type(1)));
+                    const batch_type n = select(b == batch_type(T(0)), tiny, select(b > batch_type(T(0)), up, down));
                     return select(b == constants::infinity<batch_type>(), b, n);
                 }
 
                 static XSIMD_INLINE batch_type prev(const batch_type& b) noexcept
                 {
-                    batch_type p = ::xsimd::bitwise_cast<T>(::xsimd::bitwise_cast<int_type>(b) - int_type(1));
+                    const int_batch ib = ::xsimd::bitwise_cast<int_type>(b);
+                    const batch_type up = ::xsimd::bitwise_cast<T>(ib + int_type(1));
+                    const batch_type down = ::xsimd::bitwise_cast<T>(ib - int_type(1));
+                    const batch_type tiny = -::xsimd::bitwise_cast<T>(int_batch(int_type(1)));
+                    const batch_type p = select(b == batch_type(T(0)), tiny, select(b > batch_type(T(0)), down, up));
                     return select(b == constants::minusinfinity<batch_type>(), b, p);
                 }
             };
@@ -1982,8 +1992,10 @@ namespace xsimd
         XSIMD_INLINE batch<T, A> nextafter(batch<T, A> const& from, batch<T, A> const& to, requires_arch<generic>) noexcept
         {
             using kernel = detail::nextafter_kernel<T, A>;
-            return select(from == to, from,
-                          select(to > from, kernel::next(from), kernel::prev(from)));
+            const auto r = select(from == to, to,
+                                  select(to > from, kernel::next(from), kernel::prev(from)));
+            // an unordered pair (a NaN operand) has no neighbour: the result is NaN, as for std::nextafter
+            return select(from != from || to != to, from + to, r);
         }
 
         // pow
